@@ -3,7 +3,7 @@
 
    All theorems quantify over every option list: any option types, any data lengths (bytes are N, so
    0..253 is included), duplicates, any order; and over every configuration and previous peer state.
-   Variant [repaired] is what /repo HEAD (97a5489) implements for pkg/ppp, internal/pppoe and internal/l2tp,
+   Variant [repaired] is what /repo HEAD (5478db8) implements for pkg/ppp, internal/pppoe and internal/l2tp,
    no finding is open.  [defective], [lns_found], [def_restore], [def_rguard] are the behaviours before the fixes
    54fb851 / 95b0af2 / bc32486 / ce9ad2f / 8205ad2 / 7efc399 and only occur in historical _refuted witnesses.
    Since e9950ea a PPPoE session whose LCP leaves Opened after startNCP is torn down (owner [Ended]): on PPPoE a
@@ -255,7 +255,7 @@ Print Assumptions C06_ipv6cp_wire_bad.
 (* Event alphabet of a session history (sev): the subscriber's Configure-Request (any identifier, any bytes),
    its Configure-Ack / Nak / Reject for our own request carrying our last identifier (verbatim or with
    arbitrary bytes) or a stale identifier (dropped), its Terminate-Request, the restart time-out in
-   Stopping, an LCP renegotiation (EvDown: onLCPDown; PPPoE sends Down to the NCPs and ends the session,
+   Stopping (TO-) and while negotiating (TO+, retransmission), an LCP renegotiation (EvDown: onLCPDown; PPPoE sends Down to the NCPs and ends the session,
    e9950ea) and a re-authentication (PPPoE: the same as EvDown; LNS: new AAA answer, registry answers as oracle,
    startNCP again on the same session).
    Not in the alphabet: Code-Reject, Terminate-Ack, the other time-outs, Down/Close (automaton: C05).
@@ -767,6 +767,26 @@ Example C06_lcp_session_nonvacuous :
     = [Tld; Scr; Scn 9 [mkopt 5 [1;2;3;4]%N]].
 Proof. vm_compute. repeat split. Qed.
 Print Assumptions C06_lcp_session_nonvacuous.
+
+(* ---- retransmissions ----------------------------------------------------------------------- *)
+
+(* The restart timer expiring with restart counter > 0 (TO+: V6Timeout / SLTimeout / EvTimeout) is part of
+   every session history the theorems above quantify over.  A retransmitted Configure-Request is rebuilt from
+   the current configuration; it announces the same identity as the request it repeats: *)
+Theorem C06_ipv6cp_retransmit_same :
+  forall s, vs_last s = v6_build (vs_obj s) ->
+  vs_obj (fst (v6sess_step s V6Timeout)) = vs_obj s /\
+  vs_last (fst (v6sess_step s V6Timeout)) = vs_last s.
+Proof. exact v6_retransmit_same. Qed.
+Print Assumptions C06_ipv6cp_retransmit_same.
+
+Theorem C06_lcp_retransmit_same_magic :
+  forall s, l_inv s ->
+  ls_obj (fst (lsess_step repaired s SLTimeout)) = ls_obj s /\
+  forall x, In x (ls_last (fst (lsess_step repaired s SLTimeout))) -> o_type x = 5%N ->
+    o_data x = put32b (lo_magic (ls_obj s)).
+Proof. exact lcp_retransmit_same_magic. Qed.
+Print Assumptions C06_lcp_retransmit_same_magic.
 
 (* ---- wire format ---------------------------------------------------------------------------- *)
 
